@@ -3,7 +3,8 @@
 //! `from_random_bytes_with_flags`; `ark_ec` SW/TE `serialize_with_mode` / `deserialize_with_mode` for
 //! `Affine` and `Projective`.  Line formats: see `src/serial_common.rs`.
 //! Sub-streams (3rd argument selects one): field, ext, over (over-limbed hand-written configs),
-//! toy (toy curves, exhaustive), ship (shipped curves).
+//! toy (toy curves, exhaustive), ship (shipped curves), flags (to_flags, Flags::from_u8, sign flags),
+//! prb (AffineRepr::from_random_bytes).
 #![allow(dead_code, deprecated, non_camel_case_types)]
 use ark_ec::{short_weierstrass as sw, twisted_edwards as te};
 use ark_ff::{Field, One, PrimeField, Zero};
@@ -178,6 +179,213 @@ fn ship_te<P: te::TECurveConfig>(out: &mut Out, rng: &mut Rng, n: usize, budget:
     te_offcurve_ops::<P>(out, &fd, &sub[..4]);
 }
 
+// ---------------------------------------------------------------- flags, from_random_bytes
+//   C09 toflags   CD <P>        => <mask>                          sw::Affine::to_flags().u8_bitmask()
+//   C09 signflag  FD <S|T> <x>  => <mask>                          SWFlags::from_y_coordinate / TEFlags::from_x_coordinate
+//   C09 flagu8    S <byte>      => none <byte'> | <mask> <inf> <pos: 1|0|-> <byte'>   from_u8, accessors, from_u8_remove_flags
+//   C09 flagu8    T <byte>      => <mask> <neg> <byte'>
+//   C09 flagconst S             => <default mask> <infinity() mask> <BIT_SIZE>
+//   C09 flagconst T             => <default mask> <BIT_SIZE>
+//   C09 prb       CD <bytes>    => none | inf | <x>/<y>            AffineRepr::from_random_bytes
+//   C09 prbrt     CD <P>        => none | inf | <x>/<y>            from_random_bytes(serialize_compressed(P))
+use ark_ec::AffineRepr;
+use ark_serialize::Flags;
+
+fn op_toflags<P: sw::SWCurveConfig>(out: &mut Out, cd: &str, a: &sw::Affine<P>) {
+    let input = format!("C09 toflags {} {}", cd, a.show());
+    let res = guarded(|| flag_s(&a.to_flags()));
+    out.line(&input, &res);
+}
+fn op_signflag<F: Field>(out: &mut Out, fd: &str, x: &F) {
+    let res = guarded(|| flag_s(&sw::SWFlags::from_y_coordinate(*x)));
+    out.line(&format!("C09 signflag {} S {}", fd, fe(x)), &res);
+    let res = guarded(|| flag_s(&te::TEFlags::from_x_coordinate(*x)));
+    out.line(&format!("C09 signflag {} T {}", fd, fe(x)), &res);
+}
+fn flag_byte_ops(out: &mut Out) {
+    for v in 0..=255u8 {
+        let res = guarded(|| {
+            let f = sw::SWFlags::from_u8(v);
+            let mut w = v;
+            let g = sw::SWFlags::from_u8_remove_flags(&mut w);
+            let s = match f {
+                None => format!("none {:x}", w),
+                Some(f) => format!("{:x} {} {} {:x}", f.u8_bitmask(), h01(f.is_infinity()),
+                    match f.is_positive() { None => "-", Some(true) => "1", Some(false) => "0" }, w),
+            };
+            if f == g { s } else { format!("{} !remove={:?}", s, g) }
+        });
+        out.line(&format!("C09 flagu8 S {:x}", v), &res);
+        let res = guarded(|| {
+            let f = te::TEFlags::from_u8(v);
+            let mut w = v;
+            let g = te::TEFlags::from_u8_remove_flags(&mut w);
+            let s = match f {
+                None => format!("none {:x}", w),
+                Some(f) => format!("{:x} {} {:x}", f.u8_bitmask(), h01(f.is_negative()), w),
+            };
+            if f == g { s } else { format!("{} !remove={:?}", s, g) }
+        });
+        out.line(&format!("C09 flagu8 T {:x}", v), &res);
+    }
+    let res = guarded(|| format!("{:x} {:x} {:x}", sw::SWFlags::default().u8_bitmask(), sw::SWFlags::infinity().u8_bitmask(), <sw::SWFlags as Flags>::BIT_SIZE));
+    out.line("C09 flagconst S", &res);
+    let res = guarded(|| format!("{:x} {:x}", te::TEFlags::default().u8_bitmask(), <te::TEFlags as Flags>::BIT_SIZE));
+    out.line("C09 flagconst T", &res);
+}
+/// every `step`-th point of a list, plus the points with a zero coordinate
+fn thin<T: Clone>(v: &[T], step: usize, keep: impl Fn(&T) -> bool) -> Vec<T> {
+    v.iter().enumerate().filter(|(i, x)| i % step == 0 || keep(x)).map(|(_, x)| x.clone()).collect()
+}
+fn toy_sw_flags<P: sw::SWCurveConfig>(out: &mut Out, tw: &str, th: bool) {
+    let cd = sw_desc::<P>(&fdesc::<P::BaseField>(tw));
+    let all = sw_all_points::<P>();
+    let pts = thin(&all, if th || all.len() < 150 { 1 } else { 3 }, |p| p.y.is_zero() || p.x.is_zero());
+    op_toflags(out, &cd, &sw::Affine::<P>::identity());
+    // identities with placeholder coordinates (pub fields): the flag must not depend on them
+    let one = P::BaseField::one();
+    for (x, y) in [(small_f::<P::BaseField>(5), one), (P::BaseField::zero(), -one), (one, P::BaseField::zero())] {
+        let mut i1 = sw::Affine::<P>::identity(); i1.x = x; i1.y = y;
+        op_toflags(out, &cd, &i1);
+    }
+    for p in &pts { op_toflags(out, &cd, p); }
+}
+fn ship_sw_flags<P: sw::SWCurveConfig>(out: &mut Out, rng: &mut Rng, n: usize, tw: &str) {
+    let cd = sw_desc::<P>(&fdesc::<P::BaseField>(tw));
+    let (sub, other) = sw_sample::<P>(rng, n);
+    let mut i1 = sw::Affine::<P>::identity(); i1.x = rand_field::<P::BaseField>(rng); i1.y = -P::BaseField::one();
+    op_toflags(out, &cd, &i1);
+    for p in sub.iter().chain(other.iter()) { op_toflags(out, &cd, p); op_toflags(out, &cd, &-*p); }
+}
+
+fn op_prb<A: AffineRepr + Rep>(out: &mut Out, cd: &str, bytes: &[u8]) {
+    let input = format!("C09 prb {} {}", cd, hex_list_u8(bytes));
+    let res = guarded(|| match A::from_random_bytes(bytes) { Some(p) => p.show(), None => "none".into() });
+    out.line(&input, &res);
+}
+fn op_prbrt<A: AffineRepr + Rep>(out: &mut Out, cd: &str, a: &A) {
+    let input = format!("C09 prbrt {} {}", cd, a.show());
+    let res = guarded(|| {
+        let b = ser_vec(a, Compress::Yes);
+        match A::from_random_bytes(&b) { Some(p) => p.show(), None => "none".into() }
+    });
+    out.line(&input, &res);
+}
+type BPF<A> = <<A as AffineRepr>::BaseField as Field>::BasePrimeField;
+/// Inputs of `from_random_bytes` for a curve whose flags take `f` bits (2 SW, 1 TE); `pts`: real points
+/// (their compressed encodings seed the corpus).  `from_random_bytes_with_flags` zero-pads a coordinate
+/// input into `8N + 1` bytes, clears the integer bits at positions >= MODULUS_BIT_SIZE and reads the flags
+/// from byte `ceil((bits + f)/8) - 1`; a quadratic extension splits its input at `len / 2`.
+fn prb_strings<A: AffineRepr + Rep>(rng: &mut Rng, f: usize, pts: &[A], th: bool, toy: bool) -> Vec<Vec<u8>> {
+    let bits = BPF::<A>::MODULUS_BIT_SIZE as usize;
+    let n8 = 8 * nlimbs::<A::BaseField>();
+    let k = A::BaseField::extension_degree() as usize;
+    let s0 = (bits + 7) / 8;
+    let s = (bits + f + 7) / 8;
+    let size = (k - 1) * s0 + s;
+    assert!(k <= 2);
+    let valid: Vec<Vec<u8>> = pts.iter().map(|p| ser_vec(p, Compress::Yes)).collect();
+    for b in &valid { assert_eq!(b.len(), size); }
+    let mut v: Vec<Vec<u8>> = Vec::new();
+    // valid encodings: as they are, under every pattern of the two top bits, with trailing bytes
+    let nv = if th { 24 } else { 6 };
+    for (i, b) in valid.iter().take(nv).enumerate() {
+        v.push(b.clone());
+        if i <= nv / 2 { for top in [0x00u8, 0x40, 0x80, 0xc0] { let mut w = b.clone(); w[size - 1] = (w[size - 1] & 0x3f) | top; v.push(w); } }
+        if i < 3 { let mut w = b.clone(); w.push(0xc0); v.push(w.clone()); w.extend(rand_bytes(rng, 9)); v.push(w); }
+    }
+    // zero coordinate under every pattern (0x40: the identity)
+    for top in [0x00u8, 0x40, 0x80, 0xc0, 0x20] { let mut w = vec![0u8; size]; w[size - 1] = top; v.push(w); }
+    // coordinate edges p-1, p, p+1, 2^bits - 1, 2^bits in the flagged coordinate (flag bits clear / sign bit set)
+    let base = valid.iter().find(|b| b.iter().any(|t| *t != 0)).cloned().unwrap_or(vec![0u8; size]);
+    let mut edges = vec![modulus_plus::<BPF<A>>(-1, s), modulus_plus::<BPF<A>>(0, s), modulus_plus::<BPF<A>>(1, s), pow2_plus(bits, -1, s)];
+    if bits < 8 * s { edges.push(pow2_plus(bits, 0, s)); edges.push(pow2_plus(bits, 1, s)); }
+    for e in edges {
+        let mut w = base.clone();
+        w[(k - 1) * s0..].copy_from_slice(&e);
+        v.push(w.clone());
+        if bits + f <= 8 * s { w[size - 1] |= 0x80; v.push(w); }
+    }
+    if k == 2 { for e in [modulus_plus::<BPF<A>>(0, s0), modulus_plus::<BPF<A>>(-1, s0)] { let mut w = base.clone(); w[..s0].copy_from_slice(&e); v.push(w); } }
+    // lengths around every boundary: random, all ones, sparse
+    let l1 = [0usize, 1, s.saturating_sub(1), s, s + 1, n8, n8 + 1, n8 + 2, n8 + 8, n8 + 9, n8 + 17, 2 * n8 + 3];
+    let lens: Vec<usize> = if k == 1 { l1.to_vec() } else { l1.iter().flat_map(|l| [2 * l, 2 * l + 1]).collect() };
+    for (i, len) in lens.iter().enumerate() {
+        v.push(rand_bytes(rng, *len));
+        if th || i % 2 == 0 { v.push(vec![0xffu8; *len]); }
+        if th || i % 2 == 1 {
+            // small integers: only the low bytes and the would-be flag positions are non-zero
+            let mut w = vec![0u8; *len];
+            for t in w.iter_mut().take(2) { *t = rng.next() as u8; }
+            let l = *len; if l > 0 { w[l - 1] = rng.next() as u8; } if l > 8 { w[8 * ((l - 1) / 8)] = rng.next() as u8; }
+            v.push(w);
+        }
+    }
+    // random strings of the compressed size
+    let nr = if toy { if th { 300 } else { 24 } } else { if th { 200 } else { 12 } };
+    for _ in 0..nr { v.push(rand_bytes(rng, size)); }
+    if toy {
+        assert_eq!(n8, 8);
+        let x0 = base[0];
+        if k == 1 && s == 1 {
+            v.extend(all_strings(1));
+            for t in 0..8u8 { v.push(vec![x0, 0x1f * t, 0xff]); }
+        } else if k == 1 {
+            // two significant bytes: sweep the low byte under a few flag bytes, and the flag byte over two low bytes
+            let b1s: Vec<u8> = if th { vec![0, 1, 2, 0x3e, 0x40, 0x41, 0x80, 0x81, 0xc0, 0xc1, 0xff] } else { vec![0x00, 0x80] };
+            for b1 in b1s { for b0 in 0..=255u8 { v.push(vec![b0, b1]); } }
+            let b0s: Vec<u8> = if th { vec![0, 1, x0, x0 ^ 1, 0xff] } else { vec![0, x0] };
+            for b0 in b0s { for b1 in 0..=255u8 { v.push(vec![b0, b1]); } }
+            for b0 in (0..=255u8).step_by(if th { 1 } else { 16 }) { v.push(vec![b0]); }
+        } else {
+            // Fp2 over a tiny prime: one byte per coefficient; the flagged byte is the second one
+            let mask = (1u16 << bits) - 1;
+            let nb0 = if th { (2u16 << bits).min(256) } else { mask + 3 };
+            for b0 in 0..nb0 {
+                for b1 in 0..=255u16 {
+                    let mid = b1 & 0x3f & !mask;   // ignored bits between the integer and the flags
+                    if th || mid == 0 || (mid == (0x3f & !mask) && b0 as u8 == x0) { v.push(vec![b0 as u8, b1 as u8]); }
+                }
+            }
+            for b in (0..=255u8).step_by(if th { 1 } else { 8 }) { v.push(vec![b]); v.push(vec![x0, b, 0xff]); v.push(vec![x0, 0xff, b, 0xff]); }
+        }
+    }
+    dedup(v)
+}
+fn toy_sw_prb<P: sw::SWCurveConfig>(out: &mut Out, rng: &mut Rng, tw: &str, th: bool) {
+    let cd = sw_desc::<P>(&fdesc::<P::BaseField>(tw));
+    let all = sw_all_points::<P>();
+    let mut pts = vec![sw::Affine::<P>::identity()];
+    pts.extend(thin(&all, if th || all.len() < 150 { 1 } else { 3 }, |p| p.y.is_zero() || p.x.is_zero()));
+    for p in &pts { op_prbrt(out, &cd, p); }
+    for b in prb_strings::<sw::Affine<P>>(rng, 2, &all, th, true) { op_prb::<sw::Affine<P>>(out, &cd, &b); }
+}
+fn toy_te_prb<P: te::TECurveConfig>(out: &mut Out, rng: &mut Rng, th: bool) {
+    let cd = te_desc::<P>(&fdesc::<P::BaseField>("_"));
+    let all = te_all_points::<P>();
+    let pts = thin(&all, if th || all.len() < 150 { 1 } else { 3 }, |p| p.y.is_zero() || p.x.is_zero());
+    for p in &pts { op_prbrt(out, &cd, p); }
+    for b in prb_strings::<te::Affine<P>>(rng, 1, &all, th, true) { op_prb::<te::Affine<P>>(out, &cd, &b); }
+}
+fn ship_sw_prb<P: sw::SWCurveConfig>(out: &mut Out, rng: &mut Rng, n: usize, tw: &str, th: bool) {
+    let cd = sw_desc::<P>(&fdesc::<P::BaseField>(tw));
+    let (sub, other) = sw_sample::<P>(rng, n);
+    let mut pts: Vec<sw::Affine<P>> = Vec::new();
+    // generator first, then the two kinds alternate (index 0 of `sub` is the identity)
+    for i in 1..sub.len().max(other.len()) { if i < sub.len() { pts.push(sub[i]); } if i < other.len() { pts.push(other[i]); } }
+    op_prbrt(out, &cd, &sub[0]);
+    for p in pts.iter().take(if th { 40 } else { 6 }) { op_prbrt(out, &cd, p); }
+    for b in prb_strings::<sw::Affine<P>>(rng, 2, &pts, th, false) { op_prb::<sw::Affine<P>>(out, &cd, &b); }
+}
+fn ship_te_prb<P: te::TECurveConfig>(out: &mut Out, rng: &mut Rng, n: usize, th: bool) {
+    let cd = te_desc::<P>(&fdesc::<P::BaseField>("_"));
+    let (sub, other) = te_sample::<P>(rng, n);
+    let mut pts: Vec<te::Affine<P>> = Vec::new();
+    for i in 0..sub.len().max(other.len()) { if i < sub.len() { pts.push(sub[i]); } if i < other.len() { pts.push(other[i]); } }
+    for p in pts.iter().take(if th { 40 } else { 7 }) { op_prbrt(out, &cd, p); }
+    for b in prb_strings::<te::Affine<P>>(rng, 1, &pts[1..], th, false) { op_prb::<te::Affine<P>>(out, &cd, &b); }
+}
+
 fn main() {
     let a = arkharness::args();
     let th = a.thorough;
@@ -265,6 +473,65 @@ fn main() {
         ship_sw::<bls12_381::g2::Config>(&mut out, &mut rng, if th { 30 } else { 3 }, &g2_tower(), Some(&g2_h1()), if th { big } else { 11 });
         ship_te::<ed_on_bls12_381::EdwardsConfig>(&mut out, &mut rng, if th { 40 } else { 3 }, if th { big } else { 12 });
         set_budget(big);
+    }
+    if want("flags") {
+        // Flags::from_u8 / u8_bitmask / from_u8_remove_flags on every byte, constants
+        flag_byte_ops(&mut out);
+        // to_flags of every point of the toy curves (identity with placeholder coordinates, y = 0, Fp2 sign rule)
+        toy_sw_flags::<SW13B>(&mut out, "_", th);
+        toy_sw_flags::<SW13C>(&mut out, "_", th);
+        toy_sw_flags::<SW13D>(&mut out, "_", th);
+        toy_sw_flags::<SW13E>(&mut out, "_", th);
+        toy_sw_flags::<SW13F>(&mut out, "_", th);
+        toy_sw_flags::<SW127C>(&mut out, "_", th);
+        toy_sw_flags::<SW251A>(&mut out, "_", th);
+        toy_sw_flags::<SW251B>(&mut out, "_", th);
+        if th { toy_sw_flags::<SW251C>(&mut out, "_", th); }
+        toy_sw_flags::<SW257A>(&mut out, "_", th);
+        toy_sw_flags::<SW49A>(&mut out, "2:6", th);
+        toy_sw_flags::<SW49B>(&mut out, "2:6", th);
+        toy_sw_flags::<SW169A>(&mut out, "2:2", th);
+        ship_sw_flags::<bls12_381::g1::Config>(&mut out, &mut rng, if th { 40 } else { 3 }, "_");
+        ship_sw_flags::<bls12_381::g2::Config>(&mut out, &mut rng, if th { 40 } else { 3 }, &g2_tower());
+        ship_sw_flags::<secp256k1::Config>(&mut out, &mut rng, if th { 40 } else { 3 }, "_");
+        ship_sw_flags::<mnt4_753::g1::Config>(&mut out, &mut rng, if th { 10 } else { 1 }, "_");
+        // SWFlags::from_y_coordinate / TEFlags::from_x_coordinate on field elements
+        for x in all_elems::<FDT7>() { op_signflag(&mut out, &fdesc::<FDT7>("_"), &x); }
+        for x in all_elems::<FDT13>() { op_signflag(&mut out, &fdesc::<FDT13>("_"), &x); }
+        for x in thin(&all_elems::<FDT251>(), if th { 1 } else { 4 }, |_| false) { op_signflag(&mut out, &fdesc::<FDT251>("_"), &x); }
+        for x in edge_prime::<FDT257>(&mut rng, 4) { op_signflag(&mut out, &fdesc::<FDT257>("_"), &x); }
+        for x in edge_prime::<bls12_381::Fq>(&mut rng, if th { 40 } else { 4 }) { op_signflag(&mut out, &fdesc::<bls12_381::Fq>("_"), &x); }
+        for x in edge_prime::<secp256k1::Fq>(&mut rng, if th { 40 } else { 4 }) { op_signflag(&mut out, &fdesc::<secp256k1::Fq>("_"), &x); }
+        for x in edge_prime::<ed_on_bls12_381::Fq>(&mut rng, if th { 40 } else { 4 }) { op_signflag(&mut out, &fdesc::<ed_on_bls12_381::Fq>("_"), &x); }
+        for x in all_field_elems::<F49>() { op_signflag(&mut out, &fdesc::<F49>("2:6"), &x); }
+        for x in thin(&all_field_elems::<F169>(), if th { 1 } else { 2 }, |x| x.c1.is_zero() || x.c0.is_zero()) { op_signflag(&mut out, &fdesc::<F169>("2:2"), &x); }
+        for x in edge_ext::<bls12_381::Fq2>(&mut rng, if th { 80 } else { 20 }) { op_signflag(&mut out, &fdesc::<bls12_381::Fq2>(&g2_tower()), &x); }
+    }
+    if want("prb") {
+        // AffineRepr::from_random_bytes
+        toy_sw_prb::<SW13B>(&mut out, &mut rng, "_", th);
+        toy_sw_prb::<SW13C>(&mut out, &mut rng, "_", th);
+        toy_sw_prb::<SW13D>(&mut out, &mut rng, "_", th);
+        toy_sw_prb::<SW13E>(&mut out, &mut rng, "_", th);
+        if th { toy_sw_prb::<SW13F>(&mut out, &mut rng, "_", th); }
+        toy_sw_prb::<SW127C>(&mut out, &mut rng, "_", th);
+        toy_sw_prb::<SW251A>(&mut out, &mut rng, "_", th);
+        toy_sw_prb::<SW251B>(&mut out, &mut rng, "_", th);
+        if th { toy_sw_prb::<SW251C>(&mut out, &mut rng, "_", th); }
+        toy_sw_prb::<SW257A>(&mut out, &mut rng, "_", th);
+        toy_sw_prb::<SW49A>(&mut out, &mut rng, "2:6", th);
+        toy_sw_prb::<SW49B>(&mut out, &mut rng, "2:6", th);
+        toy_sw_prb::<SW169A>(&mut out, &mut rng, "2:2", th);
+        toy_te_prb::<TE13A>(&mut out, &mut rng, th);
+        toy_te_prb::<TE127A>(&mut out, &mut rng, th);
+        toy_te_prb::<TE251A>(&mut out, &mut rng, th);
+        if th { toy_te_prb::<TE251B>(&mut out, &mut rng, th); }
+        toy_te_prb::<TE257A>(&mut out, &mut rng, th);
+        ship_sw_prb::<bls12_381::g1::Config>(&mut out, &mut rng, if th { 12 } else { 3 }, "_", th);
+        ship_sw_prb::<bls12_381::g2::Config>(&mut out, &mut rng, if th { 12 } else { 3 }, &g2_tower(), th);
+        ship_sw_prb::<secp256k1::Config>(&mut out, &mut rng, if th { 12 } else { 3 }, "_", th);
+        ship_te_prb::<ed_on_bls12_381::EdwardsConfig>(&mut out, &mut rng, if th { 12 } else { 3 }, th);
+        ship_sw_prb::<mnt4_753::g1::Config>(&mut out, &mut rng, 1, "_", false);
     }
     out.flush();
     eprintln!("c09: {} lines", out.count);
